@@ -566,6 +566,37 @@ def check_substitution_traverses_dictionaries(ctx, d) -> None:
             isinstance(t, ast.Name) and t.id in env_names for t in st.targets)), "C06.R14: digest_dsl_component builds the environment in a form the rule does not know")
 
 
+def check_resolution_does_not_write_into_templates(ctx, d) -> None:
+    """R14 (seed C06-15): the values an instance resolves are its own.  replace_parameter_references may resolve a dictionary in place
+    only if nothing it is handed is shared between instances - and digest_dsl_component hands it the literal command.environment of the
+    instance's TEMPLATE.  So: either the resolver builds new containers, or Scope.__init__ takes a deep copy of the template."""
+    rule = "C06.R14-substitution-reaches-into-dictionaries"
+    rp = d.functions.get("replace_parameter_references")
+    params = [a.arg for a in rp.args.args + rp.args.kwonlyargs]
+    inplace = [st for st in source.walk_own(rp) if isinstance(st, (ast.Assign, ast.AugAssign)) and any(
+        isinstance(t, ast.Subscript) and isinstance(t.value, ast.Name) and t.value.id in params
+        for t in (st.targets if isinstance(st, ast.Assign) else [st.target]))]
+    inplace += [c for c in source.calls_in(rp) if last_attr(c) in ("update", "setdefault", "pop", "clear") and isinstance(c.func, ast.Attribute)
+                and isinstance(c.func.value, ast.Name) and c.func.value.id in params]
+    init = d.functions.get("ScopeStack.Scope.__init__")
+    ctx.require(init is not None, "anchor missing: ScopeStack.Scope.__init__")
+    ctx.analysed(init)
+    tpl = [st for st in source.walk_own(init) if isinstance(st, (ast.Assign, ast.AnnAssign)) and any(
+        isinstance(t, ast.Attribute) and t.attr == "template" for t in (st.targets if isinstance(st, ast.Assign) else [st.target]))]
+    ctx.require(bool(tpl), "anchor missing: self.template = .. in ScopeStack.Scope.__init__")
+    v = tpl[0].value
+    deep = isinstance(v, ast.Call) and ((call_name(v) or "").split(".")[-1] in ("deepcopy", "deep_copy") or any(
+        k.arg == "deep" and isinstance(k.value, ast.Constant) and k.value.value is True for k in v.keywords))
+    ok = deep or not inplace
+    ctx.ob(rule, inplace[0] if (inplace and not deep) else tpl[0], ok,
+           ("every instance works on a deep copy of its template" if deep else "replace_parameter_references builds new containers, it never writes into its argument") if ok else
+           "replace_parameter_references resolves a dictionary IN PLACE (%s) and ScopeStack.Scope keeps a shallow copy of its template (%s): the literal "
+           "command.environment of a component template is then shared by all its instances, the first instance digested writes its argument values "
+           "into it and every later instance finds no '%%(param)s' left - it gets the first instance's environment, under the same name"
+           % (short(inplace[0], 50), short(v, 40)),
+           construct="instances resolve private values (deep template copy, or a resolver that builds new containers)")
+
+
 def check_first_element_access(ctx, d) -> None:
     """R13: <obj>.<list field that may be empty>[0] is read only where the list was tested to be non-empty (or the empty case recorded an
     error that is raised before the read)."""
@@ -1217,6 +1248,7 @@ def run(ctx) -> None:
     check_whole_string_value(ctx, d)
     check_first_element_access(ctx, d)
     check_substitution_traverses_dictionaries(ctx, d)
+    check_resolution_does_not_write_into_templates(ctx, d)
     check_split_full_prefix(ctx, d)
     check_literal_text_in_patterns(ctx, d)
     check_user_variables_override_entrypoint(ctx)
